@@ -18,7 +18,20 @@
 #include "types.h"
 #include "meta.h"
 #include "node.h"
+#include "convert.h"
+#include <sys/uio.h>
 #include "mc.hpp"
+
+// The C constructor mptcore/node/node_new.c cannot be reached by name: libmpt++ defines mpt_node_new() as well
+// (mpt++/node_new.cpp forwards to node::create) and wins at link time.  The source file itself is compiled into the
+// harness under another name (its headers are already included above; only the implicit void* conversion of C needs help).
+namespace mpt {
+#define mpt_node_new mpt_node_new_csource
+#define malloc(n) ((MPT_STRUCT(node) *) (malloc)(n))
+#include "node/node_new.c"
+#undef malloc
+#undef mpt_node_new
+}
 
 using namespace mc;
 const char *mc_id = "C16";
@@ -79,8 +92,8 @@ template <class F> static std::string guarded(F fn)
 }
 
 // ------------------------------------------------------------------ storages
-enum Kind { EMB16, NEW32, NEW64, NEW128, NEW256, NODE64, NODE128, NODE256, CXX16, ITEM32, CXXNODE, TRAITS, NKINDS };
-static const char *kname[] = { "emb16", "new32", "new64", "new128", "new256", "node64", "node128", "node256", "cxx16", "item32", "cxxnode", "traits" };
+enum Kind { EMB16, NEW32, NEW64, NEW128, NEW256, NODE64, NODE128, NODE256, CXX16, ITEM32, CXXNODE, TRAITS, CXXNODE16, NKINDS };
+static const char *kname[] = { "emb16", "new32", "new64", "new128", "new256", "node64", "node128", "node256", "cxx16", "item32", "cxxnode", "traits", "cxxnode16" };
 static int kind_of(const std::string &n) { for (int k = 0; k < NKINDS; ++k) if (n == kname[k]) return k; return -1; }
 
 struct H {
@@ -97,7 +110,8 @@ static bool make(H &h, int kind)
 		h.id = LIB(mpt::mpt_identifier_new(req[kind - NEW32])); h.obj = h.id; break; }
 	case NODE64: case NODE128: case NODE256: {
 		static const size_t req[] = { 0, 88, 216 };
-		h.node = LIB(mpt::mpt_node_new(req[kind - NODE64])); h.obj = h.node; if (h.node) h.id = &h.node->ident; break; }
+		h.node = LIB(mpt::mpt_node_new_csource(req[kind - NODE64])); h.obj = h.node; if (h.node) h.id = &h.node->ident; break; }
+	case CXXNODE16: h.node = LIB(mpt::mpt_node_new(0)); h.obj = h.node; if (h.node) h.id = &h.node->ident; break;    // as linked: mpt++ override -> node::create(0)
 	case CXX16: h.id = LIB(new mpt::identifier()); h.obj = h.id; break;
 	case ITEM32: { mpt::item<mpt::metatype> *it = LIB(new mpt::item<mpt::metatype>()); h.obj = it; h.id = it; break; }
 	case CXXNODE: h.node = LIB(mpt::node::create((size_t) 40)); h.obj = h.node; if (h.node) h.id = &h.node->ident; break;
@@ -118,7 +132,7 @@ static void destroy(H &h)
 	switch (h.kind) {
 	case EMB16: case NEW32: case NEW64: case NEW128: case NEW256:
 		LIB(mpt::mpt_identifier_set(h.id, 0, 0)); free(h.obj); break;           // as the `ident` example does
-	case NODE64: case NODE128: case NODE256: LIB(mpt::mpt_node_destroy(h.node)); break;
+	case NODE64: case NODE128: case NODE256: case CXXNODE16: LIB(mpt::mpt_node_destroy(h.node)); break;
 	case CXX16: LIB((delete h.id, 0)); break;
 	case ITEM32: LIB((delete (mpt::item<mpt::metatype> *) h.obj, 0)); break;
 	case CXXNODE: LIB((h.node->~node(), 0)); free(h.obj); break;
@@ -292,8 +306,10 @@ struct Sys {
 		return "";
 	}
 	// every comparison entry point against the model
-	std::string compares(const H &h, const M &m, const char *who)
+	std::string compares(const H &h, const M &m, const char *who0)
 	{
+		std::string whos = std::string(m.cs == UTF8 ? "text " : "non-text ") + stclass(m.size(), h.cap) + ": " + who0;
+		const char *who = whos.c_str();
 		const mpt::identifier *id = h.id;
 		const char *data = (const char *) mpt::mpt_identifier_data(id);
 		if (m.cs == UTF8) {
@@ -353,7 +369,7 @@ struct Sys {
 	{
 		bool eq = mx == my;
 		int d1 = LIB(mpt::mpt_identifier_inequal(x.id, y.id)), d2 = LIB(mpt::mpt_identifier_inequal(y.id, x.id));
-		if ((d1 == 0) != eq || (d2 == 0) != eq) return fmt("compare\tinequal(%s)=%d, reversed=%d but the contents are %s", who, d1, d2, eq ? "equal" : "different");
+		if ((d1 == 0) != eq || (d2 == 0) != eq) return fmt("compare\tinequal %s/%s: inequal(%s)=%d, reversed=%d but the contents are %s", stclass(mx.size(), x.cap), stclass(my.size(), y.cap), who, d1, d2, eq ? "equal" : "different");
 		++tally->c[eq ? C_INEQ_EQ : C_INEQ_NE];
 		return "";
 	}
@@ -574,7 +590,9 @@ static void report(Run &r, const std::string &cls, const std::string &res, const
 {
 	size_t t = res.find('\t');
 	std::string group = res.substr(0, t), detail = t == std::string::npos ? "" : res.substr(t + 1);
-	r.violation(cls + "|" + group, where + ": " + detail);
+	// a wrong comparison result is a property of the state that is compared, not of the operation that led there
+	if (group == "compare") r.violation("compare|" + detail.substr(0, detail.find(':')), where + ": " + detail);
+	else r.violation(cls + "|" + group, where + ": " + detail);
 	ledger_reset(); nlibblk = 0;      // the storages of a violating execution are abandoned, not released
 }
 
@@ -671,11 +689,11 @@ static void pair_body(Run &r, PairJob &pj, Ctx &x)
 static void alloc_body(Run &r, Ctx &x, uint64_t &nontrivial, Tally &tally)
 {
 	guard_install();
-	int fam = (int) x.choose(4);
-	static const char *fn[] = { "mpt_identifier_new", "mpt_node_new", "node::create(name)", "traits-init(NULL)" };
+	int fam = (int) x.choose(5);
+	static const char *fn[] = { "mpt_identifier_new", "mpt_node_new", "node::create(name)", "traits-init(NULL)", "mpt_node_new(mpt++ override)" };
 	std::vector<long> lens;
 	if (fam == 0) { for (long l = 0; l <= 300; ++l) lens.push_back(l); lens.push_back(65535); lens.push_back(65536); lens.push_back(1L << 20); }
-	else if (fam == 1) for (long l = 0; l <= 300; ++l) lens.push_back(l);
+	else if (fam == 1 || fam == 4) for (long l = 0; l <= 300; ++l) lens.push_back(l);
 	else if (fam == 2) for (long l = 0; l <= 140; ++l) lens.push_back(l);
 	else lens.push_back(0);
 	long len = lens[x.choose(lens.size())];
@@ -695,7 +713,7 @@ static void alloc_body(Run &r, Ctx &x, uint64_t &nontrivial, Tally &tally)
 	if (fam == 0) {
 		h.kind = NEW32; h.id = LIB(mpt::mpt_identifier_new(len)); h.obj = h.id;
 		if (len > 65535) { if (h.id) { r.violation(sig + "over-long|accepted", where + ": length above the 65535 limit was not refused"); free(h.id); } else r.count("refused:alloc over-long"); return; }
-	} else if (fam == 1) { h.kind = NODE64; h.node = LIB(mpt::mpt_node_new(len)); h.obj = h.node; h.id = h.node ? &h.node->ident : 0; }
+	} else if (fam == 1 || fam == 4) { h.kind = NODE64; h.node = fam == 1 ? LIB(mpt::mpt_node_new_csource(len)) : LIB(mpt::mpt_node_new(len)); h.obj = h.node; h.id = h.node ? &h.node->ident : 0; }
 	else if (fam == 2) {
 		const Bytes &bt = bytes(FP, len);
 		h.kind = CXXNODE; h.node = LIB(mpt::node::create(bt.arg, (int) len)); h.obj = h.node; h.id = h.node ? &h.node->ident : 0;
@@ -707,7 +725,7 @@ static void alloc_body(Run &r, Ctx &x, uint64_t &nontrivial, Tally &tally)
 	s.a = h;
 	{ size_t l1 = ledger_live(); make(s.b, EMB16); s.base += ledger_live() - l1; }
 	std::string e = guarded([&]() { return s.full(); });
-	if (fam <= 1) { if (len <= 252 && h.cap >= (size_t) len) r.count("alloc: inline capacity >= requested length"); else r.count("alloc: inline capacity < requested length (not flagged)"); }
+	if (fam <= 1 || fam == 4) { if (len <= 252 && h.cap >= (size_t) len) r.count("alloc: inline capacity >= requested length"); else r.count("alloc: inline capacity < requested length (not flagged)"); }
 	// fill the inline bytes completely, then go external, then the empty text, then clear
 	for (long l : {(long) h.cap - 1, (long) h.cap, 0L}) {
 		if (!e.empty()) break;
@@ -731,7 +749,7 @@ void mc_jobs(Tier t, std::vector<std::string> &jobs)
 	std::vector<int> bk;
 	// A runs through every storage kind; B (source / second target of copies) through one storage per distinct inline capacity
 	if (t == Quick) bk = { EMB16, NEW64, NEW256, ITEM32 };
-	else bk = { EMB16, ITEM32, NEW32, NEW64, CXXNODE, NEW128, NODE256, NEW256 };
+	else bk = { EMB16, NODE64, NEW32, NEW64, CXXNODE, NEW128, NODE256, NEW256 };
 	for (int a = 0; a < NKINDS; ++a) for (int b : bk) jobs.push_back(std::string("A=") + kname[a] + ",B=" + kname[b]);
 	jobs.push_back("alloc");
 	if (getenv("C16_DEV_JOBS")) { std::vector<std::string> f; for (auto &j : jobs) if (j.find(getenv("C16_DEV_JOBS")) != std::string::npos) f.push_back(j); jobs = f; }
